@@ -178,9 +178,13 @@ def af_stream(ctx, scale=1):
     rng = ctx.rng
     lines = ["cfg"]
     reps = (1 if ctx.tier == "quick" else 4) * scale
-    fns = AF_FNS + (AF_SLOW if ctx.tier != "quick" else [])
+    # AF_SLOW (key and prime generation: tens of thousands of allocations per call) exceed the per-line time budget under the sanitizers
+    # and are left to manual runs of the oracle
+    fns = AF_FNS
     for rep in range(reps):
-        for fn in fns + AF_KNOWN:
+        # the known-finding call sites stop the oracle process (sanitizer report): once per run is enough, and the crash budget of a
+        # stream is small
+        for fn in fns + (AF_KNOWN if rep == 0 else []):
             x = rng.bits(rng.choice([64, 160, 255, 256, 300]))
             y = rng.bits(rng.choice([8, 64, 128, 256]))
             z = rng.bits(rng.choice([64, 128, 256])) | 1
